@@ -37,6 +37,9 @@ def check(run):
     R.rule('C07.labels', 'every yield of run() is labelled with the event classes it can carry', 8)
     R.rule('C07.monitor', 'product of run()\'s CFG with the monitor automaton: no forbidden label in any reachable '
                           'state, generator ends only after ConnectFail or Disconnected, no exception escapes', 4)
+    from .common import event_fields as _evf
+    _evf(R, 'C07.monitor', ['Connecting', 'Connected', 'ConnectFail', 'Disconnected', 'Ready', 'Rejected'])   # constructing an
+    # event in run() cannot fail: plain stores of the arguments
     from .common import exception_text_total as _ett
     _ett(R, 'C07.monitor')        # '{}'.format(error) in the failure handlers cannot itself fail
     R.rule('C07.gate', 'Poll/Unresponsive only through the _ready-gated closure', 2)
